@@ -659,16 +659,16 @@ def round4_records(g, tier):
             recs.append(make_exact(mk({"kind": 4, "p1": sb, "p2": bl, "p3": se, "p4": fo}, ops_fill, "sd-nofill-nbit")))
             recs[-1].nofill = 1
     # (b) more than a megabyte in front of the first write
-    for _ in range(2 if tier == "quick" else 8):
-        nt = r.choice([6, 6, 24, 5])
+    for _ in range(1 if tier == "quick" else 4):
+        nt = 6                      # 8-byte elements keep the element count (and the list-based specification) small
         sz = NTS[nt][0] // 8
         lo, hi = vrange(nt)
         fill = r.randrange(lo, hi + 1)
-        cols = r.choice([1, 1, 7, 100])
-        pieces = r.choice([1, 1, 2])
+        cols = r.choice([1, 1, 3])
+        pieces = 1 if tier == "quick" else r.choice([1, 2])
         lead_bytes = pieces * 1000000 + r.randrange(1, 999999)
         lead_rows = lead_bytes // (sz * cols) + 1
-        rows = lead_rows + r.randrange(2, 40)
+        rows = lead_rows + r.randrange(2, 12)
         dims = [rows] if cols == 1 else [rows, cols]
         k = r.randrange(1, min(6, rows - lead_rows) + 1)
         s_, t_, e_ = [lead_rows] + [0] * (len(dims) - 1), [1] * len(dims), [k] + list(dims[1:])
